@@ -611,6 +611,7 @@ def cases_C14(rng, tier):
                 out.append(case("dec", ty, x, fam="tag-over-wrapped-body", expect_re=r"err:\w+"))
                 out.append(case("dectag", ty, x, fam="tag-over-wrapped-body", expect_re=r"err:\w+"))
                 out.append(case("dectag", ty, own + x, fam="own-tag-over-tag-over-wrapped-body", expect_re=r"err:\w+"))
+    out += [c for c in protected_nesting_cases() if c["line"].split()[1] in TAGGED_TYPES]
     return out
 
 def post_C14(cases, impl):
@@ -1561,6 +1562,23 @@ def cases_C11(rng, tier):
         want = enc(pyspec.header_map(h))
         out.append(case("encdec", "Header", enc(h), fam="single-field-header", expect="ok %s ok %s" % (want.hex(), pyspec.show(pyspec.assign("Header", h)))))
     out += combos.built_combo_cases(case, 1) + (combos.built_combo_cases(case, 2) if tier != 'quick' else [])
+    # all populations of the typed header fields, bare and as the protected / unprotected header of each carrier
+    for h, pb in field_population_headers():
+        out.append(case("enc", "Header", enc(h), fam="field-population:Header", expect="ok " + pb.hex()))
+        for ty in ("CoseSign1", "CoseEncrypt0", "CoseRecipient", "CoseSignature"):
+            tail = {"CoseSign1": [NULL, B(b"")], "CoseEncrypt0": [NULL], "CoseRecipient": [NULL, ('a', [])], "CoseSignature": [B(b"")]}[ty]
+            for prot in (True, False):
+                d = ('a', [d_protected(None, h if prot else D_EMPTY_HEADER), D_EMPTY_HEADER if prot else h] + tail)
+                out.append(case("enc", ty, enc(d), fam="field-population:" + ty, expect="ok " + enc(pyspec.wire_value(ty, d)).hex()))
+    # byte-string fields at every head-width boundary length
+    for L in BOUNDARY_LENS:
+        for d, ty in ((('a', [d_protected(None, D_EMPTY_HEADER), D_EMPTY_HEADER, B(b"p" * L), B(b"s" * L)]), "CoseSign1"),
+                      (('a', [d_protected(None, D_EMPTY_HEADER), d_header(kid=b"k" * L, iv=b"i" * L), NULL]), "CoseEncrypt0"),
+                      (('a', [d_protected(None, d_header(kid=b"k" * L)), D_EMPTY_HEADER, NULL, B(b"t" * L)]), "CoseMac0")):
+            out.append(case("enc", ty, enc(d), fam="length-boundaries:" + ty, expect="ok " + enc(pyspec.wire_value(ty, d)).hex()))
+    # extras of every value kind are emitted as given
+    for c in value_kind_cases(("Header", "CoseKey", "ClaimsSet")):
+        if c["line"].startswith("rt "): out.append(c)
     return out
 
 # ================================================================= C12
@@ -2217,6 +2235,15 @@ def cases_C02(rng, tier):
                     want = pyspec.sig_structure("CounterSignature", outer, ip, b"aad", b"payload")
                     out.append(case("helperhex", "countersig.tbs", msg, bytes([k]), b"aad", b"payload", fam="countersig-uses-wire-bytes",
                                     impl_only=True, expect="ok " + want.hex()))
+    # retained protected bytes of every head-width boundary length are re-emitted and signed as they are
+    for L, d, wire in boundary_prots():
+        if d[1][0] == NULL: continue
+        m1 = enc(A(B(wire), M(), B(b"pl"), B(b"sg")))
+        out.append(case("rt", "CoseSign1", m1, fam="length-boundaries:rt", expect="ok %s T T" % m1.hex()))
+        out.append(case("helperhex", "sign1.tbs_data", m1, b"aad", fam="length-boundaries:tbs", expect="ok " + pyspec.sig_structure("CoseSign1", wire, None, b"aad", b"pl").hex()))
+        m2 = enc(A(B(wire), M(), NULL))
+        out.append(case("helperhex", "encrypt0.decrypt", m2 if False else enc(A(B(wire), M(), B(b"ct"))), b"aad", fam="length-boundaries:aad", impl_only=True,
+                        expect="ok 6374 " + pyspec.enc_structure("CoseEncrypt0", wire, b"aad").hex()))
     return out
 
 def post_C02(cases, impl):
